@@ -998,3 +998,28 @@ func GetBodyMatrix() *m.Design {
 		Services: []*m.Service{{Name: "getbody", HasHTTP: true, Methods: methods}},
 		Features: []string{"fixed-design:get-body-matrix", "body-on-GET-and-DELETE", "explicit-body-attribute"}}
 }
+
+// MultipartMatrix is a fixed design whose endpoints take multipart requests
+// (MultipartRequest): an inline payload, a user type payload with nested
+// types, and a payload with attributes in the path, query and a header next to
+// the multipart body. The generated code takes the part encoders and decoders
+// from the user; C01 compiles the servers, clients, CLI and example stubs.
+func MultipartMatrix() *m.Design {
+	obj := func(fs ...*m.Field) *m.Attr { return &m.Attr{Type: &m.Type{Kind: m.Object, Fields: fs}} }
+	fld := func(n string, a *m.Attr, req bool) *m.Field { return &m.Field{Name: n, Attr: a, Required: req} }
+	str := func() *m.Attr { return m.Prim(m.String) }
+	arr := func(e *m.Attr) *m.Attr { return &m.Attr{Type: &m.Type{Kind: m.Array, Elem: e}} }
+	ok := func() *m.Attr { return obj(fld("ok", m.Prim(m.Boolean), true)) }
+	part := &m.UserType{Name: "MPart", Var: "vmpart", Attr: obj(fld("name", str(), true), fld("data", m.Prim(m.Bytes), false))}
+	doc := &m.UserType{Name: "MDoc", Var: "vmdoc", Attr: obj(fld("title", str(), true), fld("parts", arr(m.UserRef("MPart")), false), fld("cover", m.UserRef("MPart"), false), fld("labels", &m.Attr{Type: &m.Type{Kind: m.Map, Key: str(), Val: str()}}, false))}
+	inline := &m.Method{Name: "inline", Payload: obj(fld("title", str(), true), fld("file", m.Prim(m.Bytes), true), fld("tags", arr(str()), false), fld("size", m.Prim(m.Int64), false)), Result: ok(),
+		HTTP: &m.HTTPEndpoint{Routes: []m.Route{{Verb: "POST", Path: "/multipart/inline"}}, Multipart: true}}
+	user := &m.Method{Name: "user", Payload: m.UserRef("MDoc"), Result: m.UserRef("MDoc"),
+		HTTP: &m.HTTPEndpoint{Routes: []m.Route{{Verb: "POST", Path: "/multipart/user"}}, Multipart: true}}
+	mixed := &m.Method{Name: "mixed", Payload: obj(fld("id", str(), true), fld("rev", m.Prim(m.Int), false), fld("token", str(), false), fld("file", m.Prim(m.Bytes), true), fld("note", str(), false)), Result: ok(),
+		HTTP: &m.HTTPEndpoint{Routes: []m.Route{{Verb: "PUT", Path: "/multipart/mixed/{id}"}}, Path: []m.Mapping{{Attr: "id"}}, Query: []m.Mapping{{Attr: "rev"}}, Headers: []m.Mapping{{Attr: "token", Wire: "X-Token"}}, Multipart: true}}
+	return &m.Design{API: m.API{Name: "multipartmatrix", Title: "Multipart matrix", Server: true},
+		Types:    []*m.UserType{part, doc},
+		Services: []*m.Service{{Name: "uploads", HasHTTP: true, Methods: []*m.Method{inline, user, mixed}}},
+		Features: []string{"fixed-design:multipart-matrix", "multipart-request"}}
+}
